@@ -5,7 +5,7 @@ from .. import bb, chain as K, gen_chain as GC, gen_history as GH
 NAMESPACE = "Rbp.Props.C08"
 REQUIRED = ["balances_spec", "balances_eq_unspent_aggregate"]
 LEAN_FILES = ["Rbp/Model/Balances.lean", "Rbp/Model/Callbacks.lean", "Rbp/Proofs/Utxo.lean"]
-RULE = ("black-box `balances` on the spend histories of C07 (shared address pool: many outputs per address, P2PK and P2PKH of one key, addresses fully spent and re-funded, duplicate coinbases, ranges) vs the whole-program Lean model; "
+RULE = ("black-box `balances` on the spend histories of C07 (shared address pool: many outputs per address, P2PK and P2PKH of one key, addresses fully spent and re-funded, duplicate coinbases, ranges; 20 000 - 70 000 unspent outputs on three addresses; look-alike addresses sharing a long Base58 prefix) vs the whole-program Lean model; "
         "in addition the real `balances` output is compared with the per-address aggregation of the real `unspentcsvdump` output of the same data directory and range (needs no model). Row sets compared after sorting. "
         "non-trivial = an address with >= 2 unspent outputs or a spent output; distinct = distinct scenarios")
 ASSUMPTIONS = ["sum of the values of one address < 2^64 (total-supply bound); histories keep values <= 10^10"]
@@ -30,6 +30,37 @@ def correspondence(ctx):
         u.meta = {"i": i, "twin": True}
         scns.append(s)
         twins.append(u)
+    # (a) many unspent outputs per address (more than any plausible chunk size: 20 000 / 40 000), values large enough that a lost
+    #     partial sum shows; (b) look-alike addresses: hashes that differ only in their last byte give Base58 strings sharing a
+    #     long prefix — rows must be per address, however similar two addresses are
+    def add(blocks, coin, tag):
+        s = K.Scenario(coin=coin, callback="balances")
+        GC.simple_layout(s, blocks)
+        s.meta = {"i": tag}
+        u = K.Scenario(coin=coin, callback="unspentcsvdump")
+        u.kvs, u.files = s.kvs, s.files
+        u.meta = {"i": tag, "twin": True}
+        scns.append(s)
+        twins.append(u)
+    for coin, nout in (("bitcoin", 20000 if not ctx.thorough() else 70000), ("litecoin", 40000)):
+        pool = [b"\x76\xa9\x14" + GC.rb(r, 20) + b"\x88\xac" for _ in range(3)]
+        txs = [GH.coinbase(0, [(1, pool[0])])]
+        per = 2500
+        for k in range(nout // per):
+            txs.append(K.Tx([(GC.rb(r, 32), k, b"\x01\x01", 0xffffffff)], [(3 * 10**14 + 1000 * k + j, pool[(j * 7 + k) % 3]) for j in range(per)]))
+        b0 = K.Block(txs, time=1231006505)
+        b1 = K.Block([GH.coinbase(1, [(5, pool[1])]), K.Tx([(txs[1].txid(), 0, b"", 1), (txs[2].txid(), 17, b"", 1)], [(9, pool[2])])], time=1231007000)
+        add(GH.link([b0, b1]), coin, "fan-%d" % nout)
+    for k in range(ctx.n(6, 30)):
+        coin = ["bitcoin", "litecoin", "dogecoin"][k % 3]
+        base = GC.rb(r, 19)
+        twins_h = [base + bytes([x]) for x in r.sample(range(256), 4)]
+        scripts = [b"\x76\xa9\x14" + h + b"\x88\xac" for h in twins_h] + [b"\xa9\x14" + twins_h[0] + b"\x87"]
+        blocks = []
+        for h in range(3):
+            outs = [(r.randrange(1, 10**9), r.choice(scripts)) for _ in range(r.randrange(4, 12))]
+            blocks.append(K.Block([GH.coinbase(h, outs[:2]), K.Tx([(GC.rb(r, 32), 0, b"\x01\x01", 1)], outs[2:])], time=1231006505 + 600 * h))
+        add(GH.link(blocks), coin, "lookalike-%d" % k)
     impl, model = bb.check(ctx, "histories", scns, CMP)
     impl_u, _ = bb.run_pairs(twins)
     for s, rb_, ru in zip(scns, impl, impl_u):
